@@ -179,6 +179,13 @@ def _num(a):
     return a.astype(complex) if np.iscomplexobj(a) else a.astype(float)
 
 
+def qfine(x):
+    """Fine quantiser for quantities that are zero up to rounding on correct code: units of 1e-14, saturating at 2e-5."""
+    if x is None or not math.isfinite(x):
+        return QNAN
+    return int(min(round(abs(x) * 1e14), 2000000000))
+
+
 def gram_dev(M):
     M = _num(M)
     if M.size == 0:
@@ -277,7 +284,9 @@ def user_init_cp(cfg):
     wk = cfg.get("init_weights", "none")
     w = {"none": None, "ones": np.ones(r), "positive": np.arange(1, r + 1).astype(float) * 1.5,
          "negative": -np.arange(1, r + 1).astype(float), "mixed": np.array([(-2.0) ** (j + 1) for j in range(r)]),
-         "int_mixed": np.array([float((-1) ** j * (j + 2)) for j in range(r)])}[wk]
+         "int_mixed": np.array([float((-1) ** j * (j + 2)) for j in range(r)]),
+         # all weights within 1e-8 of one, none exactly one: they are weights like any other
+         "near_one": np.array([1.0 + (-1) ** j * 7e-9 * (j + 1) for j in range(r)])}[wk]
     return w, fs
 
 
@@ -518,6 +527,8 @@ def _run_alg(cfg, data, cap, with_cb, tl, D):
         out["rawinit"] = rawinit
         if alg == "tucker":
             kw = dict(n_iter_max=cap, init=init, tol=_tol(cfg), random_state=seed, return_errors=True)
+            if cfg.get("svd"):
+                kw["svd"] = cfg["svd"]
             if cfg.get("mask"):
                 # missing entries: the start is still exactly the supplied Tucker tensor
                 kw["mask"] = (_rng(seed + 99).random_sample(data.shape) > 0.2).astype(float)
@@ -788,22 +799,24 @@ def warm_measure(cfg, data, k, dec, rawinit):
         iw, ifs = rawinit
         init_dense = cp_dense(iw, ifs)
         try:
-            w["init_dev"] = qe(rel(cp_dense(dec[1], dec[2]) - init_dense, init_dense))
+            dv = rel(cp_dense(dec[1], dec[2]) - init_dense, init_dense)
+            w["init_dev"], w["init_fine"] = qe(dv), qfine(dv)
         except ValueError:
-            w["init_dev"] = QNAN
+            w["init_dev"], w["init_fine"] = QNAN, QNAN
         w["bit_identical"] = [bit_identical(a, b) for a, b in zip(dec[2], ifs)]
         if cfg.get("twin"):
             res2 = run_alg(dict(cfg, init_absorb=True), copy.deepcopy(data), k)
             d2 = res2["decomp"]
             a, b = cp_dense(dec[1], dec[2]), cp_dense(d2[1], d2[2])
-            w["twin_dev"] = qe(rel(a - b, init_dense))
+            w["twin_dev"], w["twin_fine"] = qe(rel(a - b, init_dense)), qfine(rel(a - b, init_dense))
     elif kind == "tucker":
         icore, ifs = rawinit
         init_dense = tucker_dense(icore, ifs)
         try:
-            w["init_dev"] = qe(rel(tucker_dense(dec[1], dec[2]) - init_dense, init_dense))
+            dv = rel(tucker_dense(dec[1], dec[2]) - init_dense, init_dense)
+            w["init_dev"], w["init_fine"] = qe(dv), qfine(dv)
         except ValueError:          # the returned (core, factors) do not even fit together / have another shape
-            w["init_dev"] = QNAN
+            w["init_dev"], w["init_fine"] = QNAN, QNAN
         w["bit_identical"] = [bit_identical(a, b) for a, b in zip(dec[2], ifs)]
     elif kind == "parafac2":
         if rawinit[0] == "parafac2":
@@ -812,13 +825,13 @@ def warm_measure(cfg, data, k, dec, rawinit):
             b = p2_slices(iw, ifs, iPs)
             num = math.sqrt(sum(np.linalg.norm(x - y) ** 2 for x, y in zip(a, b)))
             den = math.sqrt(sum(np.linalg.norm(y) ** 2 for y in b))
-            w["init_dev"] = qe(num / den)
+            w["init_dev"], w["init_fine"] = qe(num / den), qfine(num / den)
         else:
             # a CP start carries no projections: the factors (with weights) must be what was supplied
             _, iw, ifs = rawinit
             a = np.stack(p2_slices(dec[1], dec[2], dec[3]))
             b = cp_dense(iw, ifs)
-            w["init_dev"] = qe(rel(a - b, b))
+            w["init_dev"], w["init_fine"] = qe(rel(a - b, b)), qfine(rel(a - b, b))
         w["bit_identical"] = [False, False, False]
         if cfg.get("twin") and rawinit[1] is not None:
             res2 = run_alg(dict(cfg, init_absorb=True), copy.deepcopy(data), k)
@@ -827,7 +840,7 @@ def warm_measure(cfg, data, k, dec, rawinit):
             b = p2_slices(d2[1], d2[2], d2[3])
             num = math.sqrt(sum(np.linalg.norm(x - y) ** 2 for x, y in zip(a, b)))
             den = math.sqrt(sum(np.linalg.norm(y) ** 2 for y in data))
-            w["twin_dev"] = qe(num / den)
+            w["twin_dev"], w["twin_fine"] = qe(num / den), qfine(num / den)
     return w
 
 
@@ -1107,6 +1120,25 @@ def driver_configs(tier, seed, algs=None):
                         caps=[0, 1, 2, 3, 5, 8])
             base.update(kw)
             add(alg, **base)
+    # ---- three-way option interactions and paths that need many sweeps
+    #  (a) missing entries x line search: an accepted jump replaces the imputed tensor AND its norm (line iterations are 6, 8, ...)
+    for j in range(6 if thorough else 3):
+        add("parafac", shape=[5, 6, 4], rank=3, data=["noisy_lowrank", "generic", "lowrank"][j % 3], init=["random", "svd"][j % 2], tol="zero", mask=True,
+            linesearch=True, callback=j % 2 == 0, caps=list(range(0, 15)))
+    #  (b) HALS: normalisation x the LAST mode fixed x an active stopping rule (the error shortcut pairs the MTTKRP with the last UPDATED mode)
+    for fx in ([2], [0, 2], [1, 2]):
+        for nrm in (True, False):
+            add("nn_parafac_hals", shape=[4, 5, 3], rank=2, data="nonneg", init="user", init_kind="nonneg", init_weights=str(rng.choice(["none", "positive"])),
+                normalize=nrm, fixed=fx, tol="tiny", caps=[0, 1, 2, 3, 5, 8])
+    #  (c) randomised CP leaving through the stagnation rule (what is returned is the LAST iterate, whose error is the last entry)
+    for j in range(8 if thorough else 4):
+        add("rand_parafac", shape=[4, 5, 3], rank=2, data=["noisy_lowrank", "generic"][j % 2], init=["random", "svd"][j % 2], tol="zero", callback=j % 2 == 0,
+            max_stagnation=[2, 3, 5][j % 3], n_samples=[8, 12, 20][j % 3], caps=[5, 10, 20, 40, 80])
+    #  (d) HOOI with a randomised SVD selected (documented as the solver of the INITIALISATION), many sweeps on data with a flat spectrum
+    add("tucker", shape=[20, 24, 18], rank=[5, 5, 5], data="generic", init="svd", tol="zero", svd="randomized_svd", caps=[1, 2, 3, 20, 21, 60, 61, 100, 101])
+    add("tucker", shape=[30, 40, 50], rank=[6, 6, 6], data="generic", init="random", tol="zero", svd="randomized_svd", caps=[1, 2, 50, 51, 105, 106, 107])
+    #  (e) a LARGE problem (rank x product of the other modes above 2^20): blocked / chunked code paths
+    add("parafac", shape=[20, 250, 250], rank=20, data="noisy_lowrank", init="random", tol="zero", normalize=True, caps=[1, 2, 3])
     # ---- legal inputs of unusual structure
     for data, shp in (("symmetric", [4, 4, 4]), ("constant", [4, 5, 3]), ("dominant", [4, 5, 3]), ("orthogonal", [4, 5, 3]), ("banded", [4, 5, 3])):
         nonneg = data in ("constant", "dominant", "banded")
@@ -1342,6 +1374,23 @@ def warm_configs(tier, seed):
     for dt, data in (("float32", "generic"), ("int64", "counts")):
         for fx in ([], [0], [2, 1]):
             add("tucker", shape=shape, rank=[2, 3, 2], data=data, data_dtype=dt, tol="zero", fixed=fx, caps=[0, 1, 2, 3])
+    # weights that are ALMOST one (a tolerance in place of an exact test would drop them), all algorithms, twin runs
+    for alg, kw in (("parafac", {"data": "generic"}), ("nn_parafac", {"data": "nonneg", "init_kind": "nonneg", "tol": "tiny"}),
+                    ("nn_parafac_hals", {"data": "nonneg", "init_kind": "nonneg", "tol": "tiny"}),
+                    ("constrained_parafac", {"data": "nonneg", "init_kind": "nonneg", "constraints": {"non_negative": True}})):
+        base = dict(shape=shape, rank=2, init_weights="near_one", tol="zero", twin=alg != "constrained_parafac", caps=[0, 1, 2])
+        base.update(kw)
+        add(alg, **base)
+        add(alg, **dict(base, data_dtype="float32", twin=False))
+    # every mode fixed together with normalisation: still the initialisation, unchanged
+    for nrm in (True, False):
+        add("parafac", shape=shape, rank=2, data="generic", init_weights="none", tol="zero", fixed=[0, 1, 2], normalize=nrm, caps=[0, 2])
+        add("nn_parafac_hals", shape=shape, rank=2, data="nonneg", init_kind="nonneg", init_weights="none", tol="tiny", fixed=[0, 1, 2], normalize=nrm, caps=[0, 2])
+    # PARAFAC2 warm starts with a negative weight and a non-negative last mode: weighted and absorbed form agree
+    for init_as in ("parafac2", "cp"):
+        for nn in ([2], None):
+            add("parafac2", shape=[3, 0, 4], rows=[5, 5, 5] if init_as == "cp" else [4, 5, 4], rank=2, data="nonneg", init_weights="mixed",
+                init_as=init_as, tol="tiny", twin=True, nn_modes=nn, caps=[0, 1, 2, 3])
     # the same initialisation OBJECT handed to two consecutive calls (a retry, a sweep over options, a refit): the second
     # call starts from the same tensor as the first; and a symmetric start whose modes hold the SAME array object
     for alg, kw in (("parafac", {"data": "generic"}), ("nn_parafac", {"data": "nonneg", "init_kind": "nonneg", "tol": "tiny"}),
